@@ -44,13 +44,14 @@ StepS(c, s) == [c EXCEPT !.h.step = s]
 TidS(h) == IF h.hasTid THEN [set |-> TRUE, src |-> h.hdr.sv, seq |-> h.tseq] ELSE NoTidS
 ExpiredS(t, now, int) == now - t.start >= int
 
-\* _reset_internal(clear): _put_req, ack_params (step before retransmission), the queue counter and the sequence
-\* number provider survive; the queue survives unless cleared
+\* _reset_internal(clear): _put_req, ack_params (step before retransmission) and the sequence number provider survive;
+\* the queue and its counter survive unless cleared
 ResetS(c, clear) ==
   [c EXCEPT !.h = [@ EXCEPT !.state = "IDLE", !.step = "IDLE", !.progress = 0, !.fileSize = -1, !.emptyFile = FALSE,
                             !.mdOnly = FALSE, !.segLen = 0, !.eofCond = "none", !.closure = FALSE, !.ackT = NoTimerS,
                             !.ackCnt = 0, !.chkT = NoTimerS, !.hasTid = FALSE, !.tseq = -1, !.fin = NoFinS,
-                            !.cfgSet = FALSE, !.hdr = EmptyHdrS(0, 0), !.q = IF clear THEN <<>> ELSE @]]
+                            !.cfgSet = FALSE, !.hdr = EmptyHdrS(0, 0), !.q = IF clear THEN <<>> ELSE @,
+                            !.nready = IF clear THEN 0 ELSE @]]
 
 \* ---- PDUs (plen: encoded length predicted by PduLayout; rt: packs and parses back) ----
 HdrDir(h, d) == [h EXCEPT !.dir = d]
@@ -292,5 +293,5 @@ SrcFileChange(h, data) == [h EXCEPT !.file = data]
 
 \* the public observation of the handler
 PubS(h) == [state |-> h.state, step |-> h.step, progress |-> h.progress, fileSize |-> h.fileSize, nready |-> h.nready,
-            tidSet |-> h.hasTid, tseq |-> h.tseq, ackCnt |-> h.ackCnt]
+            tidSet |-> h.hasTid, tseq |-> h.tseq, ackCnt |-> h.ackCnt, qlen |-> Len(h.q)]
 ====
